@@ -8,6 +8,12 @@ pub mod c06;
 pub mod c07;
 pub mod c08;
 pub mod c09;
+pub mod c10;
+pub mod c11;
+pub mod c12;
+pub mod c13;
+pub mod c14;
+pub mod c15;
 
 pub fn spec(id: &str) -> Option<PropSpec> {
   Some(match id {
@@ -20,6 +26,12 @@ pub fn spec(id: &str) -> Option<PropSpec> {
     "C07" => c07::spec(),
     "C08" => c08::spec(),
     "C09" => c09::spec(),
+    "C10" => c10::spec(),
+    "C11" => c11::spec(),
+    "C12" => c12::spec(),
+    "C13" => c13::spec(),
+    "C14" => c14::spec(),
+    "C15" => c15::spec(),
     _ => return None,
   })
 }
